@@ -444,6 +444,11 @@ pub fn odd_command_cases() -> Vec<(&'static str, Opts, Vec<Vec<&'static str>>)> 
     let d = Opts::new(P::Seq(vec![P::Switch(Names::both('q', "quiet")), P::Last(P::Alt(vec![sync("sync"), sync("other")]).bx())]));
     let e = Opts::new(P::Seq(vec![P::Switch(Names::both('q', "quiet")), P::Alt(vec![sync("sync"), sync("other")]).opt()]));
     let f = Opts::new(P::Seq(vec![P::Switch(Names::both('q', "quiet")), P::Collect(P::Alt(vec![sync("sync"), sync("other")]).bx(), false)]));
+    // a hidden command (alone and among visible siblings) still answers for itself; so does a
+    // command under some(..)
+    let g = Opts::new(P::Seq(vec![P::Switch(Names::both('q', "quiet")), P::Hide(sync("sync").bx())]));
+    let h = Opts::new(P::Seq(vec![P::Switch(Names::both('q', "quiet")), P::Alt(vec![sync("other"), P::Hide(sync("sync").bx())])]));
+    let i = Opts::new(P::Seq(vec![P::Switch(Names::both('q', "quiet")), P::Some_(P::Alt(vec![sync("sync"), sync("other")]).bx(), false)]));
     vec![
         ("last-over-a-choice-of-commands", d, vec![vec!["sync", "--help"], vec!["sync", "--dry", "-h"], vec!["-q", "sync", "--help"], vec!["sync", "--bogus", "--help"]]),
         ("optional-over-a-choice-of-commands", e, vec![vec!["sync", "--help"], vec!["sync", "--dry", "-h"], vec!["-q", "sync", "--help"], vec!["sync", "-j", "x", "--help"]]),
@@ -451,6 +456,9 @@ pub fn odd_command_cases() -> Vec<(&'static str, Opts, Vec<Vec<&'static str>>)> 
         ("flag-looking-command-name", c, vec![vec!["-S", "--help"], vec!["-S", "--dry", "--help"], vec!["-S", "--bogus", "-h"], vec!["--sync-all", "--help"], vec!["-q", "-S", "-h"]]),
         ("command-in-optional-member-of-an-alternative-group", a, vec![vec!["sync", "--help"], vec!["sync", "-h"], vec!["-v", "sync", "--help"], vec!["sync", "--dry", "--help"], vec!["sync", "-j", "x", "--help"], vec!["sync", "--bogus", "--help"]]),
         ("command-under-fallback-beside-a-valued-alternative", b, vec![vec!["sync", "--help"], vec!["sync", "--help", "--jobs", "many"], vec!["sync", "--jobs", "many", "--help"], vec!["sync", "--help", "--jobs"], vec!["sync", "--dry", "-h"]]),
+        ("hidden-command", g, vec![vec!["sync", "--help"], vec!["-q", "sync", "-h"], vec!["sync", "--dry", "--help"], vec!["sync", "--bogus", "--help"]]),
+        ("hidden-command-among-siblings", h, vec![vec!["sync", "--help"], vec!["-q", "sync", "--dry", "-h"]]),
+        ("some-over-a-choice-of-commands", i, vec![vec!["sync", "--help"], vec!["sync", "--dry", "-h"], vec!["-q", "sync", "--help"], vec!["sync", "-j", "x", "--help"]]),
     ]
 }
 
